@@ -81,6 +81,53 @@ var roles = []string{"", "outer", "inner", "stop", "forward"}
 
 func cloneTags(t []osm.Tag) []osm.Tag { return append([]osm.Tag(nil), t...) }
 
+// boundary lengths of a varint length prefix (1 byte up to 127, 2 bytes up to 16383) and of a single byte
+var edgeLengths = []int{0, 1, 2, 126, 127, 128, 129, 254, 255, 256, 257, 16383, 16384}
+
+// LongString is a deterministic string of exactly n bytes drawn from r.
+func LongString(r *hx.Rand, n int) string {
+	b := make([]byte, n)
+	seed := r.Uint64()
+	for i := range b {
+		b[i] = byte('a' + (seed+uint64(i)*7+uint64(i/26))%26)
+	}
+	return string(b)
+}
+
+var searchableKeys = []string{"amenity", "highway", "building", "landuse", "wikidata"}
+
+// stretch gives, at a low rate, a tag a key, a value or a `key=value` token whose length sits on a boundary of a
+// length prefix (strings are length-prefixed in the string table, the token map and the posting-list headers).
+func stretch(r *hx.Rand, tags []osm.Tag, shape *[]string) []osm.Tag {
+	if !r.Chance(1, 14) {
+		return tags
+	}
+	n := edgeLengths[r.Intn(len(edgeLengths))]
+	switch r.Intn(4) {
+	case 0, 1: // searchable key, value of length n
+		*shape = append(*shape, fmt.Sprintf("len:value:%d", n))
+		return append(tags, osm.Tag{Key: "shop", Value: LongString(r, n)})
+	case 2: // the token `key=value` (without the #) has length n
+		k := searchableKeys[r.Intn(len(searchableKeys))]
+		if n > len(k)+1 {
+			*shape = append(*shape, fmt.Sprintf("len:token:%d", n))
+			for _, t := range tags {
+				if t.Key == k {
+					return tags
+				}
+			}
+			return append(tags, osm.Tag{Key: k, Value: LongString(r, n-len(k)-1)})
+		}
+		return tags
+	default: // searchable key of length n, and an unsearchable one
+		if n >= 2 {
+			*shape = append(*shape, fmt.Sprintf("len:key:%d", n))
+			return append(tags, osm.Tag{Key: "#" + LongString(r, n-1), Value: "yes"}, osm.Tag{Key: LongString(r, n), Value: LongString(r, n%300)})
+		}
+		return tags
+	}
+}
+
 // nodeLoc places node i of n on a circle (ascending ids run counter-clockwise) with a small deterministic wobble.
 func nodeLoc(i int, n int, r *hx.Rand) osm.LatLng {
 	theta := 2 * math.Pi * (float64(i) + 0.3*float64(r.Intn(100))/100.0) / float64(n)
@@ -107,7 +154,7 @@ func Generate(r *hx.Rand, big bool) *Input {
 		if missing[i] {
 			continue
 		}
-		in.Nodes = append(in.Nodes, osm.Node{ID: osm.NodeID(i), Location: nodeLoc(i, n, r), Tags: cloneTags(nodeTags[r.Intn(len(nodeTags))])})
+		in.Nodes = append(in.Nodes, osm.Node{ID: osm.NodeID(i), Location: nodeLoc(i, n, r), Tags: stretch(r, cloneTags(nodeTags[r.Intn(len(nodeTags))]), &in.Shape)})
 	}
 	pick := func() osm.NodeID { return osm.NodeID(1 + r.Intn(n)) }
 	distinct := func(k int) []osm.NodeID {
@@ -193,7 +240,7 @@ func Generate(r *hx.Rand, big bool) *Input {
 			nodes[r.Intn(len(nodes))] = osm.NodeID(n + 1 + r.Intn(2))
 			in.Shape = append(in.Shape, "way:absent-node")
 		}
-		w := osm.Way{ID: id, Nodes: nodes, Tags: cloneTags(wayTags[r.Intn(len(wayTags))])}
+		w := osm.Way{ID: id, Nodes: nodes, Tags: stretch(r, cloneTags(wayTags[r.Intn(len(wayTags))]), &in.Shape)}
 		in.Ways = append(in.Ways, w)
 		allWays = append(allWays, id)
 		if nodes[0] == nodes[len(nodes)-1] {
@@ -258,6 +305,12 @@ func Generate(r *hx.Rand, big bool) *Input {
 			}
 			in.Shape = append(in.Shape, "rel:plain")
 		}
+		rel.Tags = stretch(r, rel.Tags, &in.Shape)
+		if len(rel.Members) > 0 && r.Chance(1, 30) {
+			n := edgeLengths[r.Intn(len(edgeLengths))]
+			rel.Members[r.Intn(len(rel.Members))].Role = LongString(r, n)
+			in.Shape = append(in.Shape, fmt.Sprintf("len:role:%d", n))
+		}
 		in.Relations = append(in.Relations, rel)
 	}
 	_ = allWays
@@ -294,9 +347,20 @@ func CloneFeatures(fs []ingest.Feature) []ingest.Feature {
 
 // ---- source description lines (input of the Lean model) ----------------------------------------
 
+// tagWord renders a string as one word. Strings longer than 48 bytes are abbreviated to
+// `L<length>:<fnv64>:<first 8 bytes>` (the same on the source lines and in every dump, so the model sees them
+// as opaque values).
 func tagWord(s string) string {
 	if s == "" {
 		return "~"
+	}
+	if len(s) > 48 {
+		h := uint64(0xcbf29ce484222325)
+		for i := 0; i < len(s); i++ {
+			h ^= uint64(s[i])
+			h *= 0x00000100000001b3
+		}
+		return fmt.Sprintf("L%d:%016x:%s", len(s), h, tagWord(s[:8]))
 	}
 	var b strings.Builder
 	for _, c := range s {
@@ -590,6 +654,43 @@ type namedQuery struct {
 	q    b6.Query
 }
 
+// NamedQuery is a search that is asked of a world in addition to the fixed ones.
+type NamedQuery = namedQuery
+
+// TagQueries returns a `Tagged` (for # keys) and a `Keyed` search for the searchable tags of the features: every
+// tag whose key or value is longer than 48 bytes, and up to four of the others.
+func TagQueries(fs []ingest.Feature) []NamedQuery {
+	var out []NamedQuery
+	seen := map[string]bool{}
+	short := 0
+	for _, f := range fs {
+		for _, t := range f.AllTags() {
+			if !strings.HasPrefix(t.Key, "#") && !strings.HasPrefix(t.Key, "@") {
+				continue
+			}
+			v := t.Value.String()
+			long := len(t.Key) > 48 || len(v) > 48
+			if !long {
+				if short >= 4 {
+					continue
+				}
+				short++
+			}
+			if strings.HasPrefix(t.Key, "#") {
+				if name := "t:" + tagWord(t.Key) + "=" + tagWord(v); !seen[name] {
+					seen[name] = true
+					out = append(out, NamedQuery{name, b6.Tagged{Key: t.Key, Value: b6.NewStringExpression(v)}})
+				}
+			}
+			if name := "k:" + tagWord(t.Key); !seen[name] {
+				seen[name] = true
+				out = append(out, NamedQuery{name, b6.Keyed{Key: t.Key}})
+			}
+		}
+	}
+	return out
+}
+
 func queries() []namedQuery {
 	centre := s2.PointFromLatLng(s2.LatLngFromDegrees(51.5, -0.12))
 	return []namedQuery{
@@ -616,7 +717,7 @@ var _ = s1.Angle(0)
 // Dump is the full observation dump of a world over the probe ids: feature lookup, existence,
 // location, EachFeature ids, references (all / paths), relations, areas by point, traversal,
 // searches (in result order) and tokens. Everything that comes out in an unspecified order is sorted.
-func Dump(w b6.World, probes []b6.FeatureID, searches bool) []Obs {
+func Dump(w b6.World, probes []b6.FeatureID, searches bool, extra ...NamedQuery) []Obs {
 	var out []Obs
 	add := func(k, v string) { out = append(out, Obs{k, v}) }
 	add("ids", guard(func() string {
@@ -694,7 +795,7 @@ func Dump(w b6.World, probes []b6.FeatureID, searches bool) []Obs {
 		}
 	}
 	if searches {
-		for _, nq := range queries() {
+		for _, nq := range append(queries(), extra...) {
 			add("search "+nq.name, guard(func() string {
 				fs := w.FindFeatures(nq.q)
 				var xs []string
